@@ -241,6 +241,20 @@ def run_connection(scn, capture=None):
                     o["resp"] = [(r.raw_result, r.result, r.failed, r.channel_input)]
                 elif op["op"] == "prompt":
                     o["prompt"] = run.call(d.get_prompt)
+                elif op["op"] == "setpat":
+                    # the user changes the prompt pattern of the OPEN connection (no traffic): through the driver attribute,
+                    # through the channel's arguments, or by editing privilege levels and calling update_privilege_levels()
+                    if op["via"] == "driver":
+                        d.comms_prompt_pattern = op["pattern"]
+                    elif op["via"] == "args":
+                        d.channel._base_channel_args.comms_prompt_pattern = op["pattern"]
+                    elif op["via"] == "privs":
+                        for lname, lpat in sorted(op["levels"].items()):
+                            d.privilege_levels[lname].pattern = lpat
+                        d.update_privilege_levels()
+                    else:
+                        raise ValueError(op)
+                    o["pattern"] = [d.comms_prompt_pattern, d.channel._base_channel_args.comms_prompt_pattern]
                 else:
                     raise ValueError(op)
             except Starved:
